@@ -347,6 +347,15 @@ def drive(case):
         def failing(url):
             raise RuntimeError('injected: cannot build the interface document')
         w.doc.wsdl11.build_interface_document = failing
+    # 'wsdl' event listeners may replace ctx.transport.wsdl (e.g. to rewrite the service address):
+    # the document that is SENT is the one the context holds after the event, and that is the
+    # length the model's wsdl_state carries
+    wsdl_sent = []
+    if case.get('wsdl_rewrite'):
+        pad = b'<!-- rewritten by a wsdl listener -->' * case['wsdl_rewrite']
+        w.event_manager.add_listener('wsdl', lambda ctx: setattr(ctx.transport, 'wsdl',
+            ctx.transport.wsdl[:-case['wsdl_rewrite']] if case.get('wsdl_shrink') else ctx.transport.wsdl + pad))
+    w.event_manager.add_listener('wsdl', lambda ctx: wsdl_sent.append(len(ctx.transport.wsdl)))
     probe = Probe(w, case.get('inject'))
     body = case['body'] if isinstance(case['body'], bytes) else base64.b64decode(case['body'])
     inp = PlannedInput(body, case['caps'])
@@ -405,7 +414,8 @@ def drive(case):
                 pass
     return {'events': ev, 'probe': probe, 'offers': inp.offers + [inp.next_offer()], 'is_wsdl': is_wsdl,
             'wsdl_state': wsdl_state, 'chunks': chunks, 'starts': starts, 'err': err,
-            'wsdl_len': (len(w._wsdl) if is_wsdl and getattr(w, '_wsdl', None) is not None else None)}
+            'wsdl_len': (wsdl_sent[-1] if wsdl_sent else
+                         (len(w._wsdl) if is_wsdl and getattr(w, '_wsdl', None) is not None else None))}
 
 
 # ------------------------------------------------------------------ observation -> Coq terms
@@ -805,6 +815,8 @@ def gen_cases(check):
                 req = {'method': 'GET', 'path': path, 'qs': qs, 'ctype': None, 'body': b''}
                 add(combo, 'wsdl', req, make_cfg(rng, 0), rng.choice([None, '', '0']), [], take, closes,
                     validate=closes and rng.random() < 0.5)
+                add(combo, 'wsdl-rewritten', req, make_cfg(rng, 0), rng.choice([None, '', '0']), [], take, closes,
+                    wsdl_rewrite=rng.randint(1, 9), wsdl_shrink=rng.random() < 0.3)
                 add(combo, 'wsdl-nodoc', req, make_cfg(rng, 0), None, [], take, closes, nodocs=True)
                 add(combo, 'wsdl-fail', req, make_cfg(rng, 0), None, [], take, closes, wsdl_fail=True)
     return cases
